@@ -209,6 +209,7 @@ type Case struct {
 	Ops      []Op
 	TwinOf   int    // c02: global index of the base case, -1 if none
 	TwinKind string // c02: shuffle detour writelog, "" if none
+	Class    string // c02: "" (ordinary), "long" (read-modify-write rounds on a large tree), "bigbatch"
 	Sweep    int    // keys: sweep number 1..6
 	N        int    // keys: length bound
 }
@@ -226,6 +227,9 @@ func (c Case) MarshalJSON() ([]byte, error) {
 	if c.Mode != "c03" {
 		m["twin_of"] = c.TwinOf
 		m["twin_kind"] = c.TwinKind
+		if c.Class != "" {
+			m["class"] = c.Class
+		}
 	}
 	return json.Marshal(m)
 }
@@ -240,6 +244,7 @@ func (c *Case) UnmarshalJSON(b []byte) error {
 		Ops      []Op   `json:"ops"`
 		TwinOf   *int   `json:"twin_of"`
 		TwinKind string `json:"twin_kind"`
+		Class    string `json:"class"`
 		Sweep    int    `json:"sweep"`
 		N        int    `json:"n"`
 	}
@@ -254,7 +259,7 @@ func (c *Case) UnmarshalJSON(b []byte) error {
 		return nil
 	}
 	*c = Case{Mode: raw.Mode, Backend: raw.Backend, NodeCap: raw.NodeCap, ValueCap: raw.ValueCap,
-		Ops: raw.Ops, TwinOf: -1, TwinKind: raw.TwinKind}
+		Ops: raw.Ops, TwinOf: -1, TwinKind: raw.TwinKind, Class: raw.Class}
 	// a c02 description without the field (written before the option existed) had the write log on
 	c.UseLog = raw.Mode != "c03"
 	if raw.UseLog != nil {
@@ -579,6 +584,9 @@ func firstOfItsKind(kind string, c Case) bool {
 // operation list to continue with (the operations actually performed).
 func shrinkOps(ops []Op, test func([]Op) ([]Op, bool)) []Op {
 	budget := shrinkPerViolation
+	if len(ops) > 300 {
+		budget = 30 // long histories: every candidate run is expensive
+	}
 	for chunk := (len(ops) + 1) / 2; chunk >= 1 && budget > 0 && shrinkLeft > 0; {
 		removed := false
 		for i := 0; i+chunk <= len(ops) && budget > 0 && shrinkLeft > 0; {
